@@ -87,6 +87,10 @@ fn one_run(interp: &mut Interpreter, run: &Value, log: &Rc<RefCell<Vec<String>>>
                 cur = interp.step();
             }
             Ok(StepResult::Suspended { pending, .. }) => {
+                if run.get("collect_when_suspended").and_then(|v| v.as_bool()).unwrap_or(false) {
+                    // the host collects while the whole stack of the run is parked in the saved state
+                    interp.collect();
+                }
                 if pending.is_empty() {
                     idle += 1;
                     if idle > 8 {
